@@ -20,6 +20,11 @@
 //!                   allocation of deserialize above 64 * len + 1 MiB gives ALLOC and the value is dropped)
 //! 12 canon        slot                              -> serialize() decoded: [len, pre_longs, ser_ver, family, lg_max, lg_cur,
 //!                   flags, active, weight, offset, item, count, ...] with the pairs sorted by item (layout independent)
+//! String items (the hasher's multi-write path: std hashes a str as its bytes, then one 0xff byte): the same operations on
+//! `FrequentItemsSketch<String>`, kept in a second set of 8 slots; an item is an id (what the model uses as the key) plus
+//! its UTF-8 bytes (what the crate gets):
+//! 20 new_s slot max_map_size | 21 update_s slot id weight hash bytes... | 22 query_s slot id hash bytes... | 23 stats_s slot
+//! 24 merge_s dst src | 25 frequent_s slot error_type mode threshold (rows sorted by id)
 //! An operation addressed to a slot that holds no sketch (e.g. after a rejected image) is a no-op observed
 //! as EMPTY = [-996] (Base/Oracles.v).
 use datasketches::frequencies::{ErrorType, FrequentItemsSketch};
@@ -29,6 +34,7 @@ use crate::{fbits, Family, Ob, ERR, PANIC};
 const EMPTY: i128 = -996;
 
 type Sk = FrequentItemsSketch<i64>;
+type Ss = FrequentItemsSketch<String>;
 
 /// the image decoded into a layout-independent observation (pairs sorted by item)
 fn canon(b: &[u8]) -> Ob {
@@ -52,6 +58,12 @@ fn canon(b: &[u8]) -> Ob {
 
 pub struct Fam {
     slots: Vec<Option<Sk>>,
+    sslots: Vec<Option<Ss>>,
+    ids: std::collections::HashMap<String, i64>,
+}
+
+fn text(a: &[i128]) -> String {
+    String::from_utf8(a.iter().map(|b| *b as u8).collect()).expect("utf-8 item")
 }
 
 impl Fam {
@@ -66,7 +78,7 @@ impl Fam {
 
 impl Family for Fam {
     fn new(_cfg: &[i128]) -> Self {
-        Fam { slots: vec![None; 8] }
+        Fam { slots: vec![None; 8], sslots: vec![None; 8], ids: std::collections::HashMap::new() }
     }
 
     fn step(&mut self, code: i64, a: &[i128]) -> Ob {
@@ -77,6 +89,14 @@ impl Family for Fam {
             _ => vec![],
         };
         if needs.iter().any(|i| self.slots[*i as usize].is_none()) {
+            return vec![EMPTY];
+        }
+        let sneeds = match code {
+            21 | 22 | 23 | 25 => vec![a[0]],
+            24 => vec![a[0], a[1]],
+            _ => vec![],
+        };
+        if sneeds.iter().any(|i| self.sslots[*i as usize].is_none()) {
             return vec![EMPTY];
         }
         match code {
@@ -162,6 +182,58 @@ impl Family for Fam {
             }
             10 => vec![fbits(self.get(a[0]).epsilon())],
             12 => canon(&self.get(a[0]).serialize()),
+            20 => {
+                self.sslots[a[0] as usize] = Some(Ss::new(a[1] as usize));
+                vec![]
+            }
+            21 => {
+                let item = text(&a[4..]);
+                self.ids.insert(item.clone(), a[1] as i64);
+                self.sslots[a[0] as usize].as_mut().unwrap().update_with_count(item, a[2] as u64);
+                vec![]
+            }
+            22 => {
+                let item = text(&a[3..]);
+                self.ids.insert(item.clone(), a[1] as i64);
+                let s = self.sslots[a[0] as usize].as_ref().unwrap();
+                vec![
+                    s.estimate(&item) as i128,
+                    s.lower_bound(&item) as i128,
+                    s.upper_bound(&item) as i128,
+                    s.maximum_error() as i128,
+                ]
+            }
+            23 => {
+                let s = self.sslots[a[0] as usize].as_ref().unwrap();
+                vec![
+                    s.maximum_error() as i128,
+                    s.total_weight() as i128,
+                    s.num_active_items() as i128,
+                    s.is_empty() as i128,
+                    s.lg_cur_map_size() as i128,
+                    s.current_map_capacity() as i128,
+                    s.lg_max_map_size() as i128,
+                    s.maximum_map_capacity() as i128,
+                ]
+            }
+            24 => {
+                let other = self.sslots[a[1] as usize].clone().unwrap();
+                self.sslots[a[0] as usize].as_mut().unwrap().merge(&other);
+                vec![]
+            }
+            25 => {
+                let s = self.sslots[a[0] as usize].as_ref().unwrap();
+                let et = if a[1] == 0 { ErrorType::NoFalseNegatives } else { ErrorType::NoFalsePositives };
+                let rows = if a[2] == 0 { s.frequent_items(et) } else { s.frequent_items_with_threshold(et, a[3] as u64) };
+                let mut out: Vec<(i64, u64, u64, u64)> =
+                    rows.iter().map(|r| (self.ids[r.item()], r.estimate(), r.upper_bound(), r.lower_bound())).collect();
+                out.sort();
+                let mut ob = vec![s.maximum_error() as i128];
+                for (id, e, u, l) in out {
+                    ob.extend([id as i128, e as i128, u as i128, l as i128]);
+                }
+                ob
+            }
             11 => {
                 let k = a[1] as usize;
                 let bytes: Vec<u8> = a[2 + k..].iter().map(|b| *b as u8).collect();
